@@ -56,6 +56,11 @@ def main(argv: list[str]) -> int:
             print((r.stdout.strip().splitlines() or ["selftest-conformance: no output"])[-1])
         except Exception as e:  # pylint: disable=broad-except
             print(f"selftest-conformance: skipped ({type(e).__name__})")
+        try:  # scheduler stub vs dask's own schedulers, small sample: reported, never fatal
+            r = subprocess.run([sys.executable, os.path.abspath(__file__), "selftest-daskconf", "0.1"], capture_output=True, text=True, timeout=240)
+            print((r.stdout.strip().splitlines() or ["selftest-daskconf: no output"])[-1])
+        except Exception as e:  # pylint: disable=broad-except
+            print(f"selftest-daskconf: skipped ({type(e).__name__})")
         print("setup ok:", "odc.geo at", os.path.dirname(odc.geo.__file__), "dask", dask.__version__, "distributed", distributed.__version__, "numpy", numpy.__version__, "xarray", xarray.__version__, "rasterio", rasterio.__version__, "tifffile", tifffile.__version__, "pyproj", pyproj.__version__)
         return 0
     if argv and argv[0] == "c19-peer":
